@@ -97,6 +97,7 @@ type Path struct {
 	inputSet    map[string]*Term
 	choices     map[string]uint64
 	mapDev      int // map ranges iterated in a permuted order so far
+	pools       map[*value][]value // sync.Pool contents (per path)
 	observed    []string
 	reached     map[string]bool
 	steps       int64
